@@ -19,12 +19,17 @@ Wrap(w, t) == CASE w = "bare" -> t
                 [] w = "optarr" -> [k |-> "opt", t |-> [k |-> "arr", t |-> t, n |-> 3]]
                 [] w = "dynopt" -> [k |-> "dyn", t |-> [k |-> "opt", t |-> t]]
                 [] w = "arrarr" -> [k |-> "arr", t |-> [k |-> "arr", t |-> t, n |-> 2], n |-> 2]
-Targets == {"EarlierS", "EarlierE", "Later", "Self", "Undeclared", "ModBefore", "ModAfter", "ModNested", "ModEnum", "ModSameName"}
+Targets == {"EarlierS", "EarlierE", "Later", "Self", "Undeclared", "ModBefore", "ModAfter", "ModNested", "ModEnum", "ModSameName",
+            "ModUsesImporter", "ModUsesSibling", "AliasAsType"}
 TargetName(tg) == CASE tg = "EarlierS" -> "Aa" [] tg = "EarlierE" -> "Ee" [] tg = "Later" -> "Zz" [] tg = "Self" -> "Pp"
-                    [] tg = "Undeclared" -> "Nope" [] tg = "ModEnum" -> "Me" [] OTHER -> "Mx"
+                    [] tg = "Undeclared" -> "Nope" [] tg = "ModEnum" -> "Me" [] tg = "AliasAsType" -> "Alias" [] OTHER -> "Mx"
 ModFiles(tg) ==
     CASE tg \in {"ModBefore", "ModAfter"} -> [p \in {<<"m1">>} |-> <<St("Mx", <<Fld("q", 0, U8)>>)>>]
       [] tg = "ModEnum" -> [p \in {<<"m1">>} |-> <<En("Me")>>]
+      (* a module is a schema of its own: it cannot use what only its importer (or a module imported before it) declares *)
+      [] tg = "ModUsesImporter" -> [p \in {<<"m1">>} |-> <<St("Mx", <<Fld("q", 0, Ref("Aa"))>>)>>]
+      [] tg = "ModUsesSibling" -> [p \in {<<"m0">>, <<"m1">>} |->
+                                     IF p = <<"m0">> THEN <<St("Sib", <<Fld("q", 0, U8)>>)>> ELSE <<St("Mx", <<Fld("q", 0, Ref("Sib"))>>)>>]
       (* two modules with the same file name in different directories, each declaring a struct at the same place *)
       [] tg = "ModSameName" -> [p \in {<<"pa", "types">>, <<"pb", "types">>} |->
                                   IF p = <<"pa", "types">> THEN <<St("Ma", <<Fld("q", 0, U8)>>)>>
@@ -37,7 +42,11 @@ ResolveCase(w, tg, pos) ==
         others == <<Fld("a", 1, U8), Fld("c", 9, Ref("Ee"))>>
         fields == IF pos = 1 THEN <<probe>> \o others ELSE IF pos = 2 THEN <<others[1], probe, others[2]>> ELSE others \o <<probe>>
         main == <<En("Ee"), St("Aa", <<Fld("q", 0, U8)>>)>>
-                \o (IF tg \in {"ModBefore", "ModNested", "ModEnum"} THEN <<Mod(<<"m1">>)>> ELSE <<>>)
+                \o (IF tg = "ModUsesSibling" THEN <<Mod(<<"m0">>)>> ELSE <<>>)
+                \o (IF tg \in {"ModBefore", "ModNested", "ModEnum", "ModUsesImporter", "ModUsesSibling"} THEN <<Mod(<<"m1">>)>> ELSE <<>>)
+                (* the name a binding gives itself with `as` is not a type *)
+                \o (IF tg = "AliasAsType" THEN <<[kind |-> "impl", protocol |-> "can", type |-> "Aa", name |-> "Alias",
+                                                   items |-> <<[k |-> "field", name |-> "id", value |-> [i |-> 1]]>>]>> ELSE <<>>)
                 \o (IF tg = "ModSameName" THEN <<Mod(<<"pa", "types">>), Mod(<<"pb", "types">>)>> ELSE <<>>)
                 \o <<St("Pp", fields)>>
                 \o (IF tg = "ModAfter" THEN <<Mod(<<"m1">>)>> ELSE <<>>)
